@@ -18,21 +18,29 @@
 EXTENDS MimeStream, Json, IOUtils, TLC, SequencesExt
 
 INSTANCE MimeBuild WITH MAXP <- 0, MAXE <- 0, MAXA <- 0, ENCS <- {}, PENCS <- {}, FENCS <- {}, CCS <- <<>>,
-                        PRODS <- <<>>, SRCS <- <<>>, ROTS <- {}, BOUNDARIES <- {}, DELS <- {}, HDRS <- {}, PDESCS <- {}, FDESCS <- {}, FNAMES <- {}, FCIDS <- {}, OPSEQS <- {}, FAULTS <- {},
+                        PRODS <- <<>>, SRCS <- <<>>, ROTS <- {}, BOUNDARIES <- {}, DELS <- {}, HDRS <- {}, PDESCS <- {}, FDESCS <- {}, FNAMES <- {}, FCIDS <- {}, OPSEQS <- {}, FAULTS <- {}, ROUNDTRIP <- {},
                         prog <- 0, pc <- 0
 
 Trace == ndJsonDeserialize(IOEnv.TRACE_FILE)
 
-VARIABLES l, ms, b, lastline, viol1, viols, stats
-tvars == <<l, ms, b, lastline, viol1, viols, stats>>
+VARIABLES l, ms, b, lastline, viol1, viols, stats, second
+tvars == <<l, ms, b, lastline, viol1, viols, stats, second>>
 
 Ev == Trace[l]
 
 ZeroStats == [traces |-> 0, events |-> 0, lines |-> 0, outs |-> 0, faulted |-> 0, leaves |-> 0, hdrs |-> 0,
-              trees |-> 0, multiparts |-> 0, rerenders |-> 0]
+              trees |-> 0, multiparts |-> 0, rerenders |-> 0, rts |-> 0]
 
-TInit == /\ l = 1 /\ ms = MSInit /\ b = [t |-> 0] /\ lastline = 0
+TInit == /\ l = 1 /\ ms = MSInit /\ b = [t |-> 0] /\ lastline = 0 /\ second = FALSE
          /\ viol1 = {} /\ viols = {} /\ stats = ZeroStats
+
+(* C10: what the monitors find in the SECOND rendering (of the parsed message) is reported under C10 *)
+(* (well-formedness and content only: attributes the parser does not carry over - a declared media type, *)
+(* descriptions, the exact layering - are not part of C10)                                               *)
+R2Keep == {"C01_LeafCount", "C01_ContentEqual", "C01_ReaderProblems", "C01_AllMultipartsClosed", "C01_BoundaryNesting",
+           "C01_BoundaryDeclared", "C01_BoundaryUnique", "C01_EpilogueEmpty", "C01_NothingAfterEnd", "C02_TopFields",
+           "C02_PartFields", "C02_HeaderSyntax", "C02_NoControlInHeader", "C02_HeaderSectionEnds", "C02_SingleOccurrence"}
+Tag(S) == IF second THEN {"C10_R2_" \o p : p \in S \cap R2Keep} ELSE S
 
 RECURSIVE Flatten(_)
 RECURSIVE FlattenKids(_)
@@ -88,45 +96,49 @@ Step ==
   /\ CASE Ev.ev = "eof" ->
             /\ JsonSerialize(IOEnv.OUT_FILE, [violations |-> SetToSeq(viols), drift |-> <<>>,
                                               stats |-> [stats EXCEPT !.events = l]])
-            /\ UNCHANGED <<ms, b, lastline, viol1, viols, stats>>
+            /\ UNCHANGED <<ms, b, lastline, viol1, viols, stats, second>>
        [] Ev.ev = "begin" ->
-            /\ b' = Ev /\ ms' = MSInit /\ viol1' = {} /\ lastline' = 0
+            /\ b' = Ev /\ ms' = MSInit /\ viol1' = {} /\ lastline' = 0 /\ second' = FALSE
             /\ UNCHANGED <<viols, stats>>
        [] Ev.ev = "render" ->       \* the lines of the next distinct output follow
-            /\ ms' = MSInit
+            /\ ms' = MSInit /\ second' = Ev.second
             /\ UNCHANGED <<b, lastline, viol1, viols, stats>>
+       [] Ev.ev = "rt" ->           \* comparison of the parsed message with the built one
+            /\ viol1' = viol1 \cup F("C10_" \o Ev.what, Ev.eq)
+            /\ stats' = [stats EXCEPT !.rts = @ + 1]
+            /\ UNCHANGED <<ms, b, lastline, viols, second>>
        [] Ev.ev = "line" ->
             \* the last line of an output is the one followed by the tree event
             /\ ms' = MSStep(ms, Ev, Trace[l + 1].ev # "line")
             /\ stats' = [stats EXCEPT !.lines = @ + 1]
-            /\ UNCHANGED <<b, lastline, viol1, viols>>
+            /\ UNCHANGED <<b, lastline, viol1, viols, second>>
        [] Ev.ev = "tree" ->
             /\ LET mf == MSFinal(ms) IN
                /\ ms' = mf
-               /\ viol1' = viol1 \cup TreeFlags(Ev) \cup mf.viol \cup SectionFlags(mf, Rg(b.topnames))
+               /\ viol1' = viol1 \cup Tag(TreeFlags(Ev) \cup mf.viol \cup SectionFlags(mf, Rg(b.topnames)))
             /\ stats' = [stats EXCEPT !.trees = @ + 1,
                                       !.multiparts = @ + Cardinality({i \in DOMAIN ms.toks : ms.toks[i] = ")"})]
-            /\ UNCHANGED <<b, lastline, viols>>
+            /\ UNCHANGED <<b, lastline, viols, second>>
        [] Ev.ev = "leaf" ->
-            /\ viol1' = viol1 \cup F("C01_ContentEqual", Ev.eq)
+            /\ viol1' = viol1 \cup Tag(F("C01_ContentEqual", Ev.eq))
             /\ stats' = [stats EXCEPT !.leaves = @ + 1]
-            /\ UNCHANGED <<ms, b, lastline, viols>>
+            /\ UNCHANGED <<ms, b, lastline, viols, second>>
        [] Ev.ev = "hdr" ->
-            /\ viol1' = viol1 \cup F("C02_ValueRoundTrip", Ev.got = Ev.want)
+            /\ viol1' = viol1 \cup Tag(F("C02_ValueRoundTrip", Ev.got = Ev.want)
                               \cup F("C18_UnfoldsToValue", Ev.gotx = Ev.wantx)
-                              \cup F("C02_SingleOccurrence", Ev.count = 1)
+                              \cup F("C02_SingleOccurrence", Ev.count = 1))
             /\ stats' = [stats EXCEPT !.hdrs = @ + 1]
-            /\ UNCHANGED <<ms, b, lastline, viols>>
+            /\ UNCHANGED <<ms, b, lastline, viols, second>>
        [] Ev.ev = "out" ->
             /\ viol1' = viol1 \cup OutFlags(Ev)
             /\ stats' = [stats EXCEPT !.outs = @ + 1, !.faulted = @ + (IF Ev.faulted THEN 1 ELSE 0),
                                       !.rerenders = @ + (IF ~Ev.faulted /\ Ev.k > 1 THEN 1 ELSE 0)]
-            /\ UNCHANGED <<ms, b, lastline, viols>>
+            /\ UNCHANGED <<ms, b, lastline, viols, second>>
        [] Ev.ev = "end" ->
             /\ viols' = viols \cup {[t |-> b.t, p |-> p] : p \in viol1}
             /\ stats' = [stats EXCEPT !.traces = @ + 1]
-            /\ UNCHANGED <<ms, b, lastline, viol1>>
-       [] OTHER -> UNCHANGED <<ms, b, lastline, viol1, viols, stats>>
+            /\ UNCHANGED <<ms, b, lastline, viol1, second>>
+       [] OTHER -> UNCHANGED <<ms, b, lastline, viol1, viols, stats, second>>
 
 TSpec == TInit /\ [][Step]_tvars
 AllConsumed == TLCGet("stats").diameter - 1 = Len(Trace)
